@@ -111,7 +111,10 @@ def no_text_slicing(chk, prog):
             continue
         n_b += 1
         for st_ in panics.sites_of(prog, b):
-            if not (st_.kind.startswith("call:index") or (st_.kind == "assert" and st_.what == "bounds")):
+            if not st_.kind.startswith("call:index"):
+                continue        # (indexing a constant table with a masked nibble etc. is not a slice of client text)
+            ty0_ = ((st_.term.get("arg_tys") or [""])[0] or "")
+            if not core.re.search(r"\bstr\b|String|\[u8\]", ty0_):
                 continue
             n_s += 1
             how, why = panics.try_discharge(prog, st_)
